@@ -236,7 +236,7 @@ func (s *clusterState) UpsertLocal(key, value string) {
 	existing, ok := state.Entries[key]
 	if ok {
 		// If the entry is unchanged do nothing.
-		if existing.Value == value {
+		if existing.Value == value && !existing.Deleted {
 			return
 		}
 	}
